@@ -1,6 +1,7 @@
 """C06 - KMeansL1L2: L1 is self-consistent in Manhattan geometry, L2 is exactly KMeans."""
 import z3
 from pyvc.api import Contract, contract
+from contracts._frames import query_frame
 from pyvc.values import Obj, NdArr, z
 from pyvc import models
 from pyvc.ghost import sum1, sum_congr, app_of
@@ -67,6 +68,7 @@ class Fit(Contract):
 
 
 @contract(K + "::KMeansL1L2.predict", "C06")
+@query_frame("self")
 class Predict(Contract):
     variants = ["L2", "L1"]
 
@@ -99,6 +101,7 @@ class Predict(Contract):
 
 
 @contract(K + "::KMeansL1L2.transform", "C06")
+@query_frame("self")
 class Transform(Contract):
     variants = ["L2", "L1"]
 
